@@ -79,7 +79,7 @@ theorem magnitude (b : Base) (n : Nat) :
   · intro hpos h
     unfold digitsOf at h ⊢
     rw [List.head_reverse]
-    exact digitsLE_last _ hd1 hd16 n n hpos hpos _
+    exact digitsLE_last _ hd1 hd16 n n hpow hpos _
 
 /-- **bounded** — an integer is written as one chunk of at most `maxBufSize` bytes, whatever the
 width. -/
@@ -100,10 +100,14 @@ theorem buffer_facts :
 
 /-- Quirk of the code, outside the property's domain (widths 0..10^6), recorded so that nobody is
 surprised: the string padding count `padLen - len(s)` is computed in a Go `int`, so the wrapped
-width `-2^63` (format `%9223372036854775808s`) with a 3-byte string asks for `2^63 - 3` blanks. -/
-theorem wrapped_string_width_quirk :
-    (fmtString (.str [97, 98, 99]) (-2 ^ 63)).length = 2 ^ 63 - 3 + 3 := by
-  simp [fmtString, fmtRepeat, wrap64]
+width `-2^63` (format `%9223372036854775808s`) with a non-empty string `s` asks for
+`2^63 - len(s)` blanks (one `Write` each) instead of none. -/
+theorem wrapped_string_width_quirk (s : List Byte) (h0 : 0 < s.length) (h1 : s.length < 2 ^ 63) :
+    (fmtString (.str s) (-(2 ^ 63 : Int))).length = (2 ^ 63 - s.length) + s.length := by
+  have h : (wrap64 (-(2 ^ 63 : Int) - s.length)).toNat = 2 ^ 63 - s.length := by
+    unfold wrap64; omega
+  unfold fmtString fmtRepeat
+  rw [List.length_append, List.length_replicate, List.length_map, h]
 
 /-! ## Non-vacuity: concrete instances of the hypotheses and of the behaviour -/
 
